@@ -3,7 +3,8 @@
    distinct tags, zero is the empty list, keys are bit lists.  In this instance
    collision-freeness ([hash_ok]) and the key interface of SparseRefine.v hold, so every
    premise of the C12–C14 theorems is satisfiable. *)
-From FV Require Import Base.Bytes Merkle.SparseSpec Merkle.SparseProofs Merkle.SparseRefine.
+From FV Require Import Base.Bytes Merkle.SparseSpec Merkle.SparseFun Merkle.SparseModel Merkle.SparseProofs Merkle.SparseRefine
+  Merkle.SparseTree Merkle.SparseHistory.
 Open Scope N_scope.
 
 Definition lb := list bool.
@@ -68,4 +69,17 @@ Proof.
   - repeat constructor.
 Qed.
 Example lb_ops_wf : @ops_wf lb 256 [MSet lb_k0 [true]; MSet lb_k1 []; MDel lb_k0; MSet lb_k2 [true]].
+Proof. repeat constructor. Qed.
+
+(* the bundled interface of SparseTree.v is inhabited *)
+Definition lb_iface : smt_iface lb :=
+  {| i_eqb := key_eqb; i_zero := lb_zero; i_hleaf := lb_hleaf; i_hnode := lb_hnode; i_sum := lb_sum;
+     i_kbit := lb_kbit; i_kcpl := fun a b => N.of_nat (cpl a b); i_bits := lb_bits; i_of_bits := lb_of_bits;
+     i_eqb_spec := lb_eqb_spec; i_kbit_spec := lb_kbit_spec; i_kcpl_spec := fun a b => eq_refl;
+     i_of_bits_bits := lb_of_bits_bits; i_bits_of_bits := fun ks _ => eq_refl; i_hash_ok := lb_hash_ok |}.
+
+(* a non-trivial well-formed L1 history (insert, insert of a last-bit sibling, delete, reload, insert) *)
+Definition lb_history : list (@l1op lb) :=
+  [LIns lb_k0 [1]; LIns lb_k1 []; LDel lb_k0; LLoad; LIns lb_k2 [2; 3]; LDel lb_k2].
+Example lb_history_wf : Forall (l1op_wf lb_iface) lb_history.
 Proof. repeat constructor. Qed.
